@@ -5,6 +5,7 @@ package verifsim
 import (
 	"fmt"
 	"net/url"
+	"os"
 	"regexp"
 	"strings"
 	"sync"
@@ -207,7 +208,23 @@ func scenC02(r *Run) {
 			lie["summary"] = "<p>FORGED BIO</p>"
 		}
 		seq++
-		switch t.Draw(11) {
+		switch t.Draw(12) {
+		case 11:
+			// an object of a host that cannot be asked: its name does not resolve (a server that is
+			// gone, a typo, a name made up for the occasion). Nobody can vouch for it, least of all
+			// the document that embeds it.
+			l2 := Doc{}
+			for k, val := range lie {
+				l2[k] = val
+			}
+			pu, _ := url.Parse(vic.id)
+			gone := []string{"gone.example", "h1.example.invalid", "h1-example.test"}[t.Draw(3)]
+			l2["id"] = "https://" + gone + pu.Path
+			if a, ok := l2["attributedTo"].(string); ok {
+				au, _ := url.Parse(a)
+				l2["attributedTo"] = Doc{"id": "https://" + gone + au.Path, "type": "Person", "preferredUsername": "ghost", "name": "FORGED NAME"}
+			}
+			return l2, "embedded-with-id-on-a-host-that-does-not-resolve"
 		case 10:
 			// the id is an open redirect on the victim's host that lands on an attacker document
 			// which states no id at all: whatever is made of that document, it is not the victim
@@ -408,6 +425,22 @@ func scenC02(r *Run) {
 		entry = append(entry, vOutbox)
 		shapes = append(shapes, "honest-collection-with-anonymous-page-on-attacker-host")
 	}
+	if t.Chance(1, 6) {
+		// a file on the user's own disk that claims to be a victim's object (a saved copy, an
+		// attachment somebody sent): opened with `open /path`, it is no host's word
+		if dir, err := os.MkdirTemp("", "verif-c02-"); err == nil {
+			defer os.RemoveAll(dir)
+			v, s := forged(t.Draw(len(victims)))
+			if d, ok := v.(Doc); ok {
+				path := dir + "/saved.json"
+				if os.WriteFile(path, []byte(mustJSON(stamp(d, "localfile"))), 0o644) == nil {
+					entry = append(entry, path)
+					shapes = append(shapes, "local-file:"+s)
+					r.S.Probe("c02_local_file_claiming_victim_id")
+				}
+			}
+		}
+	}
 	r.Describe("scenario", "c02")
 	r.Describe("forgery_shapes", shapes)
 	r.Describe("entry_points", entry)
@@ -423,7 +456,7 @@ func scenC02(r *Run) {
 	}
 	explore := func(name, u string, viaUnknown bool) {
 		r.Spawn(name, func() {
-			if viaUnknown {
+			if viaUnknown && !strings.HasPrefix(u, "/") {
 				src, _ := url.Parse("https://" + E + "/")
 				obj, id, err := client.FetchUnknown(u, src)
 				if err == nil {
@@ -435,7 +468,12 @@ func scenC02(r *Run) {
 				}
 				return
 			}
-			x := pub.New(u, nil)
+			var x any
+			if strings.HasPrefix(u, "/") {
+				x = pub.FetchUserInput(u)
+			} else {
+				x = pub.New(u, nil)
+			}
 			tang, ok := x.(pub.Tangible)
 			if !ok {
 				if c, isColl := x.(*pub.Collection); isColl {
